@@ -30,7 +30,7 @@ import (
 	"golang.org/x/tools/go/ast/astutil"
 )
 
-const shimBase = "github.com/whoisnian/glb/zzverif/"
+const shimBase = "verif/engine/shim/"
 
 type pkgConf struct {
 	abs   string   // absolute directory (extra packages outside the tree); empty: repo/dir
@@ -96,15 +96,9 @@ func main() {
 		fatal("%v", err)
 	}
 	overlay := map[string]string{}
-	// mount the shim packages
-	shims, _ := filepath.Glob(filepath.Join(*shimDir, "*", "*.go"))
-	for _, f := range shims {
-		if strings.HasSuffix(f, "_test.go") {
-			continue
-		}
-		rel, _ := filepath.Rel(*shimDir, f)
-		overlay[filepath.Join(*repo, "zzverif", rel)] = f
-	}
+	// the shim packages are ordinary packages of the verif module (real directories: one of them
+	// has an assembly file), imported by the instrumented code as verif/engine/shim/...
+	_ = *shimDir
 	constOv := map[string]map[string]string{}
 	if *consts != "" {
 		for _, c := range strings.Split(*consts, ",") {
@@ -147,7 +141,7 @@ func main() {
 			}
 			for _, imp := range internalImports(filepath.Join(*repo, targets[i].dir)) {
 				d := strings.TrimPrefix(imp, "github.com/whoisnian/glb/")
-				if knownPkgs[d] || targetPkgs[imp] || strings.HasPrefix(d, "zzverif/") {
+				if knownPkgs[d] || targetPkgs[imp] || strings.HasPrefix(d, "zzverif/") || strings.HasPrefix(imp, "verif/") {
 					continue
 				}
 				if st, err := os.Stat(filepath.Join(*repo, d)); err != nil || !st.IsDir() {
